@@ -1,24 +1,24 @@
 #!/usr/bin/env python3
-"""C18_switch.py F1 <commit> [--verif DIR]
+"""C18_switch.py <F1|F2> <commit> [--verif DIR]
 
-Run ONCE, right after fixes/C18-F1.diff has been committed in /repo.  The C18 check itself needs no switch to stay
-correct (it validates whatever the real placer builds: before the commit the self-loop layouts are rejected and reported as
-KNOWN-FINDING C18-F1, after it they are accepted and nothing is printed).  This script only records the repair:
-  * known_findings/C18.json   status "known" -> "fixed" (+ commit): a fixed entry suppresses nothing, so a recurrence of the
-                              lost self-loop net becomes a VIOLATION; the witness recipe stays in the stream (selfloop family)
-  * Properties/C18.v          the refutation theorem C18_selfloop_refuted (a statement about the library) becomes the Example
-                              C18_selfloop_old_layout_rejected (a statement about one historic layout, still a useful negative
-                              example); the positive Example C18_selfloop_repaired_SchemOK is already there
+Run ONCE per finding, right after fixes/C18-<id>.diff has been committed in /repo.  The C18 check itself needs no switch to stay
+correct (it validates whatever the real placer / symbols produce: before the commit the witness layouts are rejected and reported
+as KNOWN-FINDING, after it they are accepted and nothing is printed).  This script only records the repair:
+  * known_findings/C18.json   status "known" -> "fixed" (+ commit): a fixed entry suppresses nothing, so a recurrence becomes a
+                              VIOLATION; the witness recipes stay in the stream (selfloop family / gate family)
+  * Properties/C18.v          the refutation theorem (a statement about the library) becomes an Example about one historic layout
+                              (still a useful negative example); the positive Example for the repaired layout is already there
   * docs/C18.md, manifest.d/C18.json   one line each
-Refuses to run twice (regions are located by the markers (* <C18-F1> *) ... (* </C18-F1> *))."""
+Refuses to run twice per finding (regions are located by the markers (* <C18-Fx> *) ... (* </C18-Fx> *))."""
 import sys, os, re, json
 
 args = list(sys.argv[1:])
 verif = '/verif'
 if '--verif' in args:
     i = args.index('--verif'); verif = args[i + 1]; del args[i:i + 2]
-if len(args) < 2 or args[0] not in ('F1', 'C18-F1'):
+if len(args) < 2 or args[0] not in ('F1', 'C18-F1', 'F2', 'C18-F2'):
     sys.exit(__doc__)
+fid = args[0][-2:]
 commit = args[1]
 
 
@@ -32,31 +32,42 @@ def region(path, tag, new):
     open(p, 'w').write(s[:m.start()] + new + s[m.end():])
 
 
-region('coq/Properties/C18.v', 'C18-F1', '''(* C18-F1 (repaired in /repo by %s, switched by fixes/C18_switch.py): the layout py4hw USED TO build for a block that contains
+def sub(path, old, new):
+    p = os.path.join(verif, path)
+    s = open(p).read()
+    open(p, 'w').write(s.replace(old, new))
+
+
+if fid == 'F1':
+    region('coq/Properties/C18.v', 'C18-F1', '''(* C18-F1 (repaired in /repo by %s, switched by fixes/C18_switch.py): the layout py4hw USED TO build for a block that contains
    Reg(d, q, enable=q)  lost the net q -> r.e; kept as a negative example: it is rejected and violates the declarative statement *)
 Example C18_selfloop_old_layout_rejected : schem_ok ex_selfloop_c ex_selfloop_l = false /\\ ~ SchemOK ex_selfloop_c ex_selfloop_l.
 Proof. exact (conj ex_selfloop_rejected ex_selfloop_not_SchemOK). Qed.
 ''' % commit)
-region('coq/Properties/C18.v', 'C18-F1-pa', '')
+    region('coq/Properties/C18.v', 'C18-F1-pa', '')
+    sub('docs/C18.md', '## Finding C18-F1 (known_findings/C18.json, status known) — refutation on the unchanged library',
+        '## Finding C18-F1 (known_findings/C18.json, status FIXED by /repo commit %s; before it:) — refutation on the library as it was' % commit)
+    sub('docs/C18.md', '| `C18_selfloop_refuted` | the layout py4hw really builds for `Reg(d,q,enable=q)` is rejected **and** `¬ SchemOK` (finding C18-F1) |',
+        '| Example `C18_selfloop_old_layout_rejected` | the layout py4hw used to build for `Reg(d,q,enable=q)` (before %s) is rejected **and** `¬ SchemOK`; `C18_selfloop_repaired_SchemOK`: the layout built now is `SchemOK` |' % commit)
+    sub('manifest.d/C18.json', 'A refutation on the unchanged library (self-loop on a column-1 instance loses its net, C18_selfloop_refuted) is reported as KNOWN-FINDING C18-F1.',
+        'Finding C18-F1 (self-loop on a column-1 instance lost its net) was repaired in /repo (%s); its witness blocks stay in the stream and a recurrence is a VIOLATION.' % commit)
+else:
+    region('coq/Properties/C18.v', 'C18-F2', '''(* C18-F2 (repaired in /repo by %s, switched by fixes/C18_switch.py): the layout py4hw USED TO build for a block that contains an Add
+   with carry input drew the adder's input pins b and ci at one point; kept as a negative example *)
+Example C18_addci_old_layout_rejected : schem_ok ex_addci_c ex_addci_l = false /\\ ~ SchemOK ex_addci_c ex_addci_l.
+Proof. exact (conj ex_addci_rejected ex_addci_not_SchemOK). Qed.
+''' % commit)
+    region('coq/Properties/C18.v', 'C18-F2-pa', '')
+    sub('docs/C18.md', '## Finding C18-F2 (known_findings/C18.json, status known)',
+        '## Finding C18-F2 (known_findings/C18.json, status FIXED by /repo commit %s; before it:)' % commit)
+    sub('docs/C18.md', '| `C18_addci_refuted` |', '| Example `C18_addci_old_layout_rejected` (was theorem `C18_addci_refuted` before %s) |' % commit)
+    sub('manifest.d/C18.json', 'A refutation on the current library (Add with carry input: pins b and ci at one point, C18_addci_refuted) is reported as KNOWN-FINDING C18-F2.',
+        'Finding C18-F2 (Add with carry input: pins b and ci at one point) was repaired in /repo (%s); its witness stays in the stream and a recurrence is a VIOLATION.' % commit)
 
 p = os.path.join(verif, 'known_findings', 'C18.json')
 k = json.load(open(p))
 for f in k['findings']:
-    if f['id'] == 'C18-F1':
+    if f['id'] == 'C18-' + fid:
         f['status'] = 'fixed'; f['commit'] = commit
 json.dump(k, open(p, 'w'), indent=1)
-
-p = os.path.join(verif, 'docs', 'C18.md')
-s = open(p).read()
-s = s.replace('## Finding C18-F1 (known_findings/C18.json, status known) — refutation on the unchanged library',
-              '## Finding C18-F1 (known_findings/C18.json, status FIXED by /repo commit %s; before it:) — refutation on the library as it was' % commit)
-s = s.replace('| `C18_selfloop_refuted` | the layout py4hw really builds for `Reg(d,q,enable=q)` is rejected **and** `¬ SchemOK` (finding C18-F1) |',
-              '| Example `C18_selfloop_old_layout_rejected` | the layout py4hw used to build for `Reg(d,q,enable=q)` (before %s) is rejected **and** `¬ SchemOK`; `C18_selfloop_repaired_SchemOK`: the layout built now is `SchemOK` |' % commit)
-open(p, 'w').write(s)
-
-p = os.path.join(verif, 'manifest.d', 'C18.json')
-s = open(p).read()
-s = s.replace('A refutation on the unchanged library (self-loop on a column-1 instance loses its net, C18_selfloop_refuted) is reported as KNOWN-FINDING C18-F1.',
-              'Finding C18-F1 (self-loop on a column-1 instance lost its net) was repaired in /repo (%s); its witness blocks stay in the stream and a recurrence is a VIOLATION.' % commit)
-open(p, 'w').write(s)
-print('C18-F1 switched to fixed (%s); now run: cd %s && ./mk Properties/C18.vo && ./check C18 quick' % (commit, verif))
+print('C18-%s switched to fixed (%s); now run: cd %s && ./mk Properties/C18.vo && ./check C18 quick' % (fid, commit, verif))
